@@ -17,6 +17,7 @@ one() {
   (cd /verif && VERIF_REPO=$WT ./check $P) > $OUT 2>&1; C=$?
   N=$(grep -o 'no-failing-input-found' $OUT | head -1)
   echo "$id $P exit=$C $N"
+  printf '{"property":"%s","exit":%s,"concrete_replay":%s}\n' "$P" "$C" "$([ -z "$N" ] && [ "$C" = 1 ] && echo true || echo false)" > $d/recheck.json
   H=$(python3 -c "import hashlib,os;print(hashlib.sha1(os.path.realpath('$WT').encode()).hexdigest()[:8])")
   rm -rf /verif/build/alt-$H
   git -C /repo worktree remove --force $WT
